@@ -125,10 +125,16 @@ class _MaxRequestBytesMiddleware:
 
     def process_request(self, req: falcon.Request, resp: falcon.Response) -> None:
         """Reject oversized inline request bodies with HTTP 413."""
-        path = req.path
-        for prefix in self._exempt_prefixes:
-            if path == prefix or path.startswith(prefix + "/"):
-                return
+        # The exemption is for bodyless capability discovery (GET / OPTIONS on
+        # the health endpoint).  Every RPC route is a POST, and a method that
+        # happens to be called ``health`` is routed as ``{prefix}/health/init``
+        # and ``{prefix}/health/exchange`` -- exempting by path alone let those
+        # bodies through uncapped.
+        if req.method != "POST":
+            path = req.path
+            for prefix in self._exempt_prefixes:
+                if path == prefix or path.startswith(prefix + "/"):
+                    return
         cl = req.content_length
         if cl is not None and cl > self._max_bytes:
             self._reject_too_large(resp, cl)
